@@ -106,6 +106,19 @@ def family(pid, tier, seed):
             GG.random_inputs(g, rng, rnd, 9, seen)
             gs.append(g)
         gs += [g for g in curated_core(rng, with_tokens=False) if g["id"] in ("u0", "u1")]
+        # the same production tried at two raw positions that differ only by an explicitly consumed elided token (equal
+        # non-elided cursors), first failing and then matching
+        cap = lambda f, fk, kid: {"op": "cap", "f": f, "fk": fk, "kid": kid}
+        seq = lambda *k: {"op": "seq", "kids": list(k)}
+        node = lambda f: cap(f, "node", {"op": "prod", "p": "P1"})
+        for gid, first in (("m0", seq(GG.ref("Comment"), node("N"))), ("m1", seq(GG.ref("Comment"), GG.ref("Comment"), node("N")))):
+            g = mk_grammar(gid, [("P0", seq(cap("H", "string", GG.ref("Ident")), {"op": "grp", "mode": "once", "kid": {"op": "alt", "kids": [first, node("N")]}}), [F("H", "string"), F("N", "node", "P1")]),
+                                 ("P1", seq(cap("C", "string", GG.ref("Comment")), cap("V", "string", GG.ref("Ident"))), [F("C", "string"), F("V", "string")])],
+                           ks=(0, 1, 2, 3, 99999, 150000, -1, -2))
+            seen = set()
+            for s_ in ("x #k# y", "x #k##c# y", "x  #k# #c# y", "x #k#", "x y", "x#k#y", "x #k# #c# #a# y"):
+                GG.add_input(g, s_, seen)
+            gs.append(g)
     return gs
 
 
@@ -481,19 +494,21 @@ def run(pid, tier, args):
                                             {"property": pid, "kind": "parse", "case": dict(single_case(g, (g["id"], a, i)), ks=[a, b]), "readable": describe(g, (g["id"], a, i)), "real": ra, "real_stronger": rb})
             if not args.replay:
                 # lookaheads around and beyond MaxLookahead: a failing alternative that consumes 100001 tokens
-                big = {}
-                for line in vlib.vh(vhbin, ["lookahead-big", "100001"], timeout=900).splitlines():
-                    kk, oc = line.split("\t", 1)
-                    big[int(kk)] = oc
-                for a, ra in big.items():
-                    for b, rb in big.items():
-                        if ra.startswith("ok") and a != b and (b < 0 or (a >= 0 and a < b)):
-                            nrel += 1
-                            if rb != ra:
-                                v.violation("grammar `( @\"x\"+ \"!\" | @\"x\"+ \"?\" )` on 100001 x then ?: lookahead %d gives %s but lookahead %d gives %s" % (a, ra, b, rb),
-                                            {"property": pid, "kind": "lookahead-big", "outcomes": {str(k_): o_ for k_, o_ in big.items()}})
-                if not any(o.startswith("ok") for o in big.values()):
-                    raise Infra("vacuity: the long-input lookahead case never succeeds: %s" % big)
+                bigs = {"flat": {}, "deep": {}}
+                for line in vlib.vh(vhbin, ["lookahead-big", "100001"], timeout=1800).splitlines():
+                    shape_, kk, oc = line.split("\t", 2)
+                    bigs[shape_][int(kk)] = oc
+                what = {"flat": "grammar `( @\"x\"+ \"!\" | @\"x\"+ \"?\" )` on 100001 x then ?", "deep": "grammar `\"(\" @@ \")\" | @Ident` on 100009 nested parentheses"}
+                for shape_, big in bigs.items():
+                    for a, ra in big.items():
+                        for b, rb in big.items():
+                            if ra.startswith("ok") and a != b and (b < 0 or (a >= 0 and a < b)):
+                                nrel += 1
+                                if rb != ra:
+                                    v.violation("%s: lookahead %d gives %s but lookahead %d gives %s" % (what[shape_], a, ra, b, rb),
+                                                {"property": pid, "kind": "lookahead-big", "shape": shape_, "outcomes": {str(k_): o_ for k_, o_ in big.items()}})
+                    if not any(o.startswith("ok") for o in big.values()):
+                        raise Infra("vacuity: the long-input lookahead case (%s) never succeeds: %s" % (shape_, big))
             v.notes["successful_pairs_checked"] = nrel
             if nrel < 100 and not args.replay:
                 raise Infra("vacuity: only %d (success, stronger lookahead) pairs" % nrel)
@@ -521,6 +536,17 @@ def run(pid, tier, args):
                             (ra, ia), (rb, ib) = list(outs.items())[:2]
                             v.violation("grammar %s lookahead %d: inputs %r and %r have the same non-elided tokens but give %s vs %s" % (g["id"], k, g["inputs"][ia]["s"], g["inputs"][ib]["s"], ra[:200], rb[:200]),
                                         {"property": pid, "kind": "parse", "case": dict(single_case(g, (g["id"], k, ia)), inputs=[g["inputs"][ia], g["inputs"][ib]], groups=[[0, 1]]), "readable": describe(g, (g["id"], k, ia)), "real": ra, "real_other": rb})
+            if not args.replay:
+                # lexers with many rules: the elided token types lie beyond 64 rules
+                outs = {}
+                for line in vlib.vh(vhbin, ["elide-many"], timeout=600).splitlines():
+                    nr, inp_, oc = line.split("\t")
+                    outs.setdefault(nr, {})[inp_] = oc
+                for nr, d in outs.items():
+                    ngroups += 1
+                    if len(set(d.values())) > 1 or "err" in d.values():
+                        v.violation("lexer with %s rules before the elided ones: re-spaced inputs with the same non-elided tokens give %s" % (nr, json.dumps(d)[:300]),
+                                    {"property": pid, "kind": "elide-many", "rules": nr, "outcomes": d})
             v.notes["respacing_groups_checked"] = ngroups
             if ngroups < 50 and not args.replay:
                 raise Infra("vacuity: only %d re-spacing groups" % ngroups)
@@ -553,6 +579,13 @@ def run(pid, tier, args):
         if pid == "C01" and not args.replay:
             from props import recorded
             recorded.check(v, wd, pid)
+        if pid == "C11" and not args.replay:
+            # hand-written node types that embed a struct carrying Pos / EndPos / Tokens: same values as the plain node type
+            for line in vlib.vh(vhbin, ["posfields-static"], timeout=600).splitlines():
+                f = line.split("\t")
+                v.validated(1)
+                if f[0] != "OK":
+                    v.violation("node types embedding a struct with Pos/EndPos/Tokens, input %s: %s" % (f[1], f[2][:400]), {"property": pid, "kind": "posfields-static", "line": line})
         if pid == "C02" and not args.replay:
             # abandoned attempts that had queued up to 5000 captures (the shapes big_alt / big_opt / big_look of the family)
             nbig = 0
